@@ -189,6 +189,7 @@ def run(chk):
     chk.assumptions = ["programs never raise a runtime error inside a filter (that ends the stream loop by design) and print to stdout only "
                        "with -s (without -s stdout is the pcap stream)"]
     chk.floor = 300
+    chk.rule += '; plus streams of 4200-9000 packets with actions that declare locals, frames larger than the stdout buffer with line-feed bytes, non-boolean patterns, assignments to the record fields of $0 between selecting filters'
     work = core.scratch_dir()
     try:
         n = 500 if quick else 15000
